@@ -229,6 +229,17 @@ func c16Run(c c16Case) []*core.Violation {
 				a = &midAuth{Auth: a, at: max(c.MidStep, 1), hook: func() { _ = sc.Close() }}
 			case "debugon":
 				a = &midAuth{Auth: a, at: max(c.MidStep, 1), hook: func() { sc.SetDebugLog(true); debugWasOn = true }}
+			case "noop":
+				// another goroutine's keep-alive lands between two steps of the exchange (the server takes the
+				// line for a SASL response and ends the exchange with a final reply)
+				a = &midAuth{Auth: a, at: max(c.MidStep, 1), hook: func() {
+					done := make(chan struct{})
+					go func() { defer close(done); _ = sc.Noop() }()
+					select {
+					case <-done:
+					case <-time.After(5 * time.Second):
+					}
+				}}
 			}
 			dialErr = sc.Auth(a)
 			// whether or not the exchange succeeded, the application goes on using the connection as
@@ -453,7 +464,7 @@ func c16Gen(t *rapid.T) c16Case {
 	if c.TLS == "none" && rapid.IntRange(0, 3).Draw(t, "direct") == 0 {
 		c.Direct = true
 		c.NoHello = rapid.Bool().Draw(t, "nohello")
-		c.Mid = rapid.SampledFrom([]string{"", "", "close", "debugon"}).Draw(t, "mid")
+		c.Mid = rapid.SampledFrom([]string{"", "", "close", "debugon", "noop"}).Draw(t, "mid")
 		c.MidStep = rapid.IntRange(1, 2).Draw(t, "midstep")
 		c.Mech = strings.TrimSuffix(c.Mech, "-NOENC")
 	}
@@ -493,7 +504,7 @@ func c16Gen(t *rapid.T) c16Case {
 
 func TestC16(t *testing.T) {
 	rec := core.Rec("C16")
-	rec.Rule = "the real Client with WithDebugLog (auth-data logging not enabled) authenticates against the reference SASL servers with mechanisms {PLAIN, LOGIN (NOENC and over TLS), CRAM-MD5, XOAUTH2, SCRAM-SHA-1/-256 and PLUS over TLS 1.2/1.3}, random alphanumeric passwords/tokens of 12..40 characters, right or wrong password, and server scripts {success, 535 to the AUTH command, 535 / non-base64 challenge / unparsable reply line / disconnect at exchange step 1..3, LOGIN servers with their own wording of the two prompts (incl. the same prompt twice), unexpected extra challenge, disconnect at AUTH, disconnect right after a challenge or right after the EHLO reply so that the client's write of the secret-bearing line fails}; loggers: a capturing log.Logger, log.New (text) and log.NewJSON; optionally followed by a MAIL/RCPT/DATA transaction; one case in four (of the non-TLS ones) drives the exported smtp.Client API directly (NewClient, SetLogger, SetDebugLog, Auth with or without a prior Hello, Mail, Quit), optionally with Client.Close() or SetDebugLog(true) happening between two steps of the exchange. " +
+	rec.Rule = "the real Client with WithDebugLog (auth-data logging not enabled) authenticates against the reference SASL servers with mechanisms {PLAIN, LOGIN (NOENC and over TLS), CRAM-MD5, XOAUTH2, SCRAM-SHA-1/-256 and PLUS over TLS 1.2/1.3}, random alphanumeric passwords/tokens of 12..40 characters, right or wrong password, and server scripts {success, 535 to the AUTH command, 535 / non-base64 challenge / unparsable reply line / disconnect at exchange step 1..3, LOGIN servers with their own wording of the two prompts (incl. the same prompt twice), unexpected extra challenge, disconnect at AUTH, disconnect right after a challenge or right after the EHLO reply so that the client's write of the secret-bearing line fails}; loggers: a capturing log.Logger, log.New (text) and log.NewJSON; optionally followed by a MAIL/RCPT/DATA transaction; one case in four (of the non-TLS ones) drives the exported smtp.Client API directly (NewClient, SetLogger, SetDebugLog, Auth with or without a prior Hello, Mail, Quit), optionally with Client.Close(), SetDebugLog(true) or another goroutine's NOOP happening between two steps of the exchange. " +
 		"Oracle: no log record (each Messages element, the formatted record, the stock loggers' bytes, every JSON string value) contains the password/token raw, in hex, or in base64 at any of the three alignments, nor any SASL response line that carries the secret or a proof derived from it (as recorded by the server); and the MAIL FROM line sent after authentication - in direct mode also after a FAILED exchange that left the connection usable - appears in the log (redaction window closed). " +
 		"Non-trivial: >= 2 client responses in the exchange or an abnormal end. Distinct by (mechanism, TLS, wrong password, script, logger, transaction, password)."
 	rec.Assumptions = []string{"passwords are alphanumeric so that JSON escaping cannot hide them", "the user name and the mechanism name are not secrets"}
